@@ -534,6 +534,11 @@ func (fr *frame) instr(instr ssa.Instruction, st *State) bool {
 		fr.vals[x] = tup[0]
 		fr.ghostSelectSends(x, st)
 	case *ssa.Send:
+		if nm := fr.nameOfValue(x.Chan); nm != "" {
+			fr.mapKV = &[2]tv{{fr.val(x.X), x.X.Type()}, {fr.val(x.X), x.X.Type()}}
+			fr.checkAsserts("send "+nm, st)
+			fr.mapKV = nil
+		}
 		fr.ghostSend(x.Chan, x.X, st)
 	case *ssa.Go:
 		fr.goStmt(x, st)
